@@ -12,7 +12,7 @@
    behind the value of a top-level member whose status is a hit, the detector still accepts, whatever members
    precede it and wherever the cut falls afterwards ("as long as the deciding member lies within the header").
    Tie to Go: json / c10 correspondence channels; subtype_spec (an independent member splitter) judges Detect. *)
-From Verif Require Import Base.Bytes Model.Types Model.Json Model.Detect Gen.TreeData Gen.Tables
+From Verif Require Import Base.Bytes Model.Types Model.Detectors Gen.FuncTerms Proofs.TranslateP Model.Json Model.Detect Gen.TreeData Gen.Tables
   Spec.JsonSubtype Spec.SpecQueries Spec.JsonGrammar Spec.JsonGrammar8259 Spec.JsonQuery
   Proofs.JsonPath Proofs.JsonQueryP Proofs.JsonQsatMono Proofs.JsonQueryTrunc.
 From Coq Require Import Lia.
@@ -233,3 +233,9 @@ Proof. vm_compute. split; reflexivity. Qed.
 Example C10_nested_type_is_not_geo :
   json_family "geo"%string tok_object (b "{""a"":{""type"":""Feature""}}") 0 = false.
 Proof. vm_compute. reflexivity. Qed.
+
+(* regenerated obligation: in the CURRENT source the four detectors of the JSON family are single calls of jsonHelper with
+   the query and the first-token mask the model dispatches them with (Model/Detect.hand_models) *)
+Theorem C10_json_family_calls_are_the_source : call_shapes_agree_for ["JSON"; "GeoJSON"; "HAR"; "GLTF"]%string = true.
+Proof. vm_compute. reflexivity. Qed.
+Print Assumptions C10_json_family_calls_are_the_source.
